@@ -163,6 +163,8 @@ class Node:
         self.expected_reach_min_rewards = 0
         self.num_states = num_states
         self.check_next_states()
+        # own the list: pruning must not edit the caller's transition list
+        self.next_states = list(self.next_states)
 
     def __eq__(self, other):
         return (
